@@ -377,7 +377,7 @@ func clIsCallee(w *actionlint.Workflow) bool {
 func (g *clGate) wait(ch chan struct{}) {
 	select {
 	case <-ch:
-	case <-time.After(20 * time.Second):
+	case <-time.After(180 * time.Second):
 		g.st.mu.Lock()
 		g.st.timeouts++
 		g.st.mu.Unlock()
